@@ -549,6 +549,17 @@ func (in *Interp) branch(fr *frame, cond ast.Expr, st *State, thenF, elseF func(
 		if c.Op == token.NOT {
 			return in.branch(fr, c.X, st, elseF, thenF)
 		}
+	case *ast.CallExpr:
+		// a call to a module function as a condition may have effects (a cache lookup reorders lines): graft its tree
+		if in.isInlineCall(fr, c) {
+			t := in.callTree(fr, c, st)
+			return t.mapLeaves(func(l *Tree) *Tree {
+				if l.Flow == flowPanic || len(l.Vals) != 1 {
+					return l
+				}
+				return in.branchTerm(l.Vals[0], l.St, thenF, elseF)
+			})
+		}
 	}
 	ct := in.eval(fr, cond, st)
 	return in.branchTerm(ct, st, thenF, elseF)
@@ -1586,6 +1597,18 @@ func (in *Interp) libcall(fr *frame, name string, f *types.Func, call *ast.CallE
 	switch name {
 	case "slices.DeleteFunc":
 		return in.deleteFunc(fr, call, args, st)
+	case "sort.Slice", "sort.SliceStable":
+		// sorts a local slice in place: the variable now holds sorted(x, less)
+		ns := st.clone()
+		if len(call.Args) == 2 {
+			if id, ok := ast.Unparen(call.Args[0]).(*ast.Ident); ok {
+				if obj := fr.info.Uses[id]; obj != nil {
+					ns.env[obj] = &Term{Op: "sorted", Args: []*Term{args[0], args[1]}}
+					return leafTree(ns, flowFall)
+				}
+			}
+		}
+		in.fail(call.Pos(), "sort.Slice on a non-local slice is not modelled")
 	case "slices.Contains":
 		return leafTree(st, flowFall, &Term{Op: "contains", Args: args})
 	case "fmt.Errorf", "errors.New":
